@@ -200,7 +200,7 @@ PROPS = {
         kani=[("lms::sha256_m32::k_verify_total", "quick", "full-domain")] + _gf255_k(["k_decode_ct_badlen"]),
         cases=["*_decode_strict", "*_decode_ct", "*_decode_opt", "*_decode_reduce", "*_verify", "ecdsa_verify", "*_ecdh", "lms_sig_corrupt", "modint_split", "gfgen_split",
                "hash_script", "x25519_ladder", "x448_ladder", "frost_*_decode_total", "p256_prepare_truncate_short", "ed25519_trunc", "p256_trunc"],
-        level_text="Absence of panics / out-of-bounds is part of every Verus obligation set and every Kani harness listed (index, slice, overflow and unwrap checks are built-in obligations): GF255 strict decoding for every length, LMS verify for every string, wNAF recoding. All other entry points: the stand-in sweep catches panics (catch_unwind) on boundary-biased inputs of all lengths.",
+        level_text="Absence of panics / out-of-bounds is part of every Verus obligation set and every Kani harness listed (index, slice, overflow and unwrap checks are built-in obligations): GF255 strict decoding for every length, P-256 point decoding for every string of every length, Ed25519 verify_raw/ctx/ph for every signature string (contexts up to 255 bytes: the documented precondition of the assert! in verify_inner), LMS verify for every string, wNAF recoding. All other entry points: the stand-in sweep catches panics (catch_unwind) on boundary-biased inputs of all lengths.",
         level_note="Most decode/verify entry points are not under contract; status-word exactness is proved only for GF255 (C20).",
     ),
     "C20": dict(
